@@ -4,7 +4,7 @@ from vf.core import B, cstr, cZ, cbool, clist, copt, cpair
 PID = "C13"
 MODULES = ["Prelude", "C13_Model", "C13_Spec", "C13_Check"]
 PROPS_MODULE = "C13_Properties C19_Properties"
-THEOREMS = ["C13_range", "C13_both_sides", "C13_guard", "C13_serve_only_leader", "C13_history",
+THEOREMS = ["C13_range", "C13_single_shard", "C13_both_sides", "C13_guard", "C13_serve_only_leader", "C13_history",
             "C13_gateway_follows_announcement",
             "C13_store_shard_filter"]  # the last one is proved over the API-backed store model of C19
 EVAL = "C13_Check.eval"
